@@ -58,6 +58,16 @@ func VC04_VerifySound() {
 	vsym.Assert(err == nil, "honest blob parses")
 	okh, _ := hp.Verify(cert)
 	vsym.Assert(okh, "honest blob verifies (completeness)")
+	// the answer depends on the certificate asked about, not on earlier questions to the same object
+	cert2 := vsym.CertSameID(vsym.Signer("k2"), cert)
+	okOther, _ := hp.Verify(cert2)
+	vsym.Assert(!okOther, "after a successful verification, another key under the same issuer and serial still does not verify")
+	okAgain, _ := hp.Verify(cert)
+	vsym.Assert(okAgain, "verification is repeatable")
+	hp2, _ := ParsePKCS7(honest)
+	okOther2, _ := hp2.Verify(cert2)
+	okAfter, _ := hp2.Verify(cert)
+	vsym.Assert(vsym.And(!okOther2, okAfter), "asking about the wrong key first does not change the answer for the right one")
 	vsym.Reach("honest-verifies")
 
 	// the adversary's parsed state
@@ -69,7 +79,7 @@ func VC04_VerifySound() {
 		p.ContentInfo = append([]byte{0x30, 4}, contentOctets...)
 	}
 	n := 1 + vsym.Pick("signers", vsymC04Signers)
-	names := []string{"s0", "s1"}
+	names := []string{"s0", "s1", "s2"}
 	hsi := hp.SignerInfo[0]
 	honestMD := hsi.AuthenticatedAttributes.MessageDigest
 	for i := 0; i < n; i++ {
